@@ -9,7 +9,8 @@ PROPS_FILE = 'Props/C09.v'
 RULE = ('pairs (file tree, runtime tree) over a 5-name space incl. look-alikes, <=4 nodes each (disjoint, nested, overlapping, deeper '
         'either side), both modes (several spellings), every runtime node as target x 3 tree options, without emdpath / with every '
         'existing file path as emdpath / foreign root under an emdpath, root metadata sets over 3 names; plus sequences of 2-4 appends; plus '
-        'look-alike paths (sibling names a / ab / abc, a node named like its root) x every file path as emdpath; '
+        'look-alike paths (sibling names a / ab / abc, a node named like its root) x every file path as emdpath; plus an inner node with an '
+        'emdpath naming a file node below it / a target the runtime tree lacks / a target off its path, every mode and tree flag; '
         'non-trivial = distinct cases in which the append returned normally and the file changed')
 MODELLED = ['payload templates with content tokens', 'group paths as lists of names (the source computes them as strings; look-alike paths are generated on purpose)']
 ASSUMPTIONS = ['valid, sibling-distinct names; runtime trees well formed (C12)']
@@ -98,6 +99,33 @@ def cases(seed, tier):
                       'emdpath': '/'.join(['r'] + list(ep))})
         steps.append({'op': 'read', 'file': 0, 'tree': True, 'emdpath': 'r'})
         out.append({'tops': [ft, rt], 'steps': steps, 'kind': 'P'})
+    # an inner node together with an emdpath that names a file node downstream of it (the data moves to the target), a target the
+    # runtime tree lacks, or a target that is not downstream at all -- both modes, every tree flag
+    for i in range(n // 8):
+        ft = {'cls': 'Root', 'name': 'r', 'tok': 0, 'rank': 0, 'mds': [], 'kids': [
+            nd('a', [nd('b', [nd('c', cls=rng.choice(['Node', 'Array'])), nd('g')], cls=rng.choice(['Node', 'Array'])), nd('d')]), nd('e', [nd('f')])]}
+        rt = copy.deepcopy(ft)
+        for p_ in T.all_paths(rt):
+            s_ = T.spec_at(rt, p_)
+            if s_['cls'] not in ('Node', 'Root'):
+                s_['tok'] = T.fresh_tok()
+            if rng.random() < 0.4:
+                cand = [x for x in NAMES if x not in {k['name'] for k in s_['kids']}]
+                s_['kids'].append(nd(rng.choice(cand), cls=rng.choice(['Node', 'Array'])))
+        if rng.random() < 0.3:
+            # the runtime tree lacks part of what the file has below the node
+            par = T.spec_at(rt, rng.choice([['a'], ['a', 'b']]))
+            if par['kids']:
+                par['kids'].pop(0)
+        tp = rng.choice([q for q in [['a'], ['a'], ['a', 'b'], ['e']] if tuple(q) in {tuple(x) for x in T.all_paths(rt)}])
+        below = [q for q in T.all_paths(ft) if len(q) > len(tp) and list(q[:len(tp)]) == tp]
+        others = [q for q in T.all_paths(ft) if list(q[:len(tp)]) != tp and len(q) > 0]
+        ep = rng.choice(below) if below and rng.random() < 0.75 else rng.choice(others)
+        steps = [{'op': 'save', 'file': 0, 'top': 0, 'tp': [], 'mode': 'w', 'tree': True},
+                 {'op': 'save', 'file': 0, 'top': 1, 'tp': tp, 'mode': rng.choice(modes_a + modes_ao), 'tree': rng.choice([True, None, False]),
+                  'emdpath': '/'.join(['r'] + list(ep))},
+                 {'op': 'read', 'file': 0, 'tree': True, 'emdpath': 'r'}]
+        out.append({'tops': [ft, rt], 'steps': steps, 'kind': 'D'})
     return out
 
 
